@@ -251,7 +251,10 @@ Definition oracle_msg (pid : bytes) (name : bytes) (args : list bytes) : option 
     match args with
     | _ :: _ :: rest =>
         match decode_msg rest with
-        | Some m => if pid_is pid "C06" then Some (okrej (rules_accept m)) else None
+        | Some m => if pid_is pid "C06" || pid_is pid "C12" then Some (okrej (rules_accept m))
+                    else if pid_is pid "C19" then (if amount_rule_ok m then None else Some (bs "reject"))
+                    else if pid_is pid "C10" then (if all_tags_valid m then None else Some (bs "reject"))
+                    else None
         | None => None
         end
     | _ => None
